@@ -140,3 +140,37 @@ def run(ctx):
     from . import c05
     c05.rule_whitelist(ctx, P)
     ctx.borrow('c16', ['R16a'], 'a refused create keeps nothing allocated')
+    # ---------------- R13g output parameters are never read before the call itself wrote them
+    r = ctx.rule('R13g', 'a public entry point reads *output-parameter only after it stored to it on every path to that read',
+                 'a refused call that frees / dereferences what the caller\'s output variable held on entry touches memory the library was never given')
+    from ..cfg import dominators as _dm, dominates as _dom
+    from .. import api as _api
+    pubs = {'@' + a['name'] for a in _api.public_api(ctx.root)}
+    nro = 0
+    for name in sorted(pubs):
+        fn = P.fns.get(name)
+        if fn is None:
+            continue
+        idom = _dm(fn)
+        for pi, (pty, pn) in enumerate(fn.params):
+            if not (pty.endswith('**') or pty in ('i64*', 'i32*') and pn in ()):
+                continue
+            if pty != 'i8***' and not pty.endswith('**'):
+                continue
+            # only pure outputs: parameters the function stores to
+            stores = [i for i in fn.insts() if i.op == 'store' and strip_ptr_casts(fn, i.ops[1]) == pn]
+            loads = [i for i in fn.insts() if i.op == 'load' and strip_ptr_casts(fn, i.ops[0]) == pn]
+            if not stores or not loads or pty != 'i8***':
+                continue
+            for ld in loads:
+                nro += 1
+                ok = any((st.bb is ld.bb and st.idx < ld.idx) or (st.bb is not ld.bb and _dom(idom, st.bb, ld.bb)) for st in stores)
+                inst = f'{name}: read of *{pn} (output parameter {pi}) at line {ld.line}'
+                if ok:
+                    r.ok(inst + ' is dominated by a store of the function itself', func=name, loc=ld.loc)
+                else:
+                    r.fail(inst, func=name, sig=f'output parameter {pi} read before it is written', loc=ld.loc,
+                           msg=f'{name} reads *{pn} at line {ld.line} on a path on which it has not stored to it: the value is whatever the caller\'s variable held '
+                               '(a stale pointer from an earlier call, or garbage) and is handed to the cleanup / free code')
+    r.require_min(2)
+
